@@ -179,6 +179,32 @@ pub fn gen_garbage(src: &mut Src, _i: usize) -> Case {
     case
 }
 
+/// volume: one call with tens of thousands of characters; many calls
+pub fn gen_volume(src: &mut Src, _i: usize) -> Case {
+    let (cols, rows) = gen::any_size(src);
+    let mut g = G::new(cols, rows).with_raw(3);
+    let mut case = Case::new(cols, rows, gen::limit(src));
+    let target = *src.pick(&[5_000usize, 20_000, 70_000]);
+    let mut s = String::new();
+    let mut n = 0;
+    while n < target {
+        let f = gen::frag(src, &g);
+        n += f.chars().count() + 1;
+        s.push_str(&f);
+        if src.chance(1, 400) {
+            let (c, r) = gen::any_size(src);
+            case.calls.push(Call::FeedStr(std::mem::take(&mut s)));
+            case.calls.push(Call::Resize(c, r));
+            g.cols = c;
+            g.rows = r;
+        }
+    }
+    case.calls.push(Call::FeedStr(s));
+    case.calls.push(Call::Query);
+    case.nums = vec![src.below(3), src.chance(1, 3) as usize];
+    case
+}
+
 /// enumerated: every count-taking control with 65535 on every small size, on both screens
 fn enum_huge_counts() -> Vec<Case> {
     let mut v = vec![];
@@ -217,6 +243,7 @@ pub fn run(env: &Env) -> PropRun {
     parts.push(random_part(env, "random-small", n, &gen_small, &j));
     parts.push(random_part(env, "random-any-size", n / 4, &gen_big, &j));
     parts.push(random_part(env, "garbage", n / 2, &gen_garbage, &j));
+    parts.push(random_part(env, "volume", env.tier.scale(300, 20), &gen_volume, &j));
     PropRun {
         parts,
         meta: EvidenceMeta {
